@@ -203,6 +203,18 @@ func (g *Gen) eval(env *Env, e Expr) Val {
 	case *ESlice:
 		return g.evalSlice(env, x)
 	case *EField:
+		// pkg.Name: a constant or variable of a package the function's package imports (io.EOF)
+		if id, isIdent := x.X.(*EIdent); isIdent && env.pkg != nil {
+			if _, isVar := env.vars[id.Name]; !isVar {
+				for _, p := range append([]*types.Package{env.pkg}, env.pkg.Imports()...) {
+					if p.Name() == id.Name {
+						if o := p.Scope().Lookup(x.Name); o != nil {
+							return g.objVal(env, o)
+						}
+					}
+				}
+			}
+		}
 		base := g.eval(env, x.X)
 		return g.selectField(env, base, x.Name)
 	}
